@@ -23,6 +23,7 @@ type finding struct {
 	count                                int64 // generated texts in this class
 	validBefore                          int64 // … whose original text validated (a working config changes meaning)
 	becomesValid                         int64 // … whose original text failed validation and whose formatted text validates
+	env                                  string // environment of the kept example: "" = every variable set, "unset" = none set, "cross" = formatted while set, compiled while unset
 }
 
 type engine struct {
@@ -34,6 +35,8 @@ type engine struct {
 	viol     map[string]*finding
 	frozen   map[string]bool // keys found by the single-site phase
 	timedOut bool
+	cp       *composePlan // value composition family (owns the switch between the two environments)
+	envUnset bool         // the workers currently run in the environment in which no variable is set
 }
 
 type worker struct {
@@ -79,7 +82,7 @@ func (e *engine) run(tasks []func(w *worker)) {
 
 // eval runs the oracle on one generated text. sites names the directive
 // site(s) the text varies; label is an optional suffix for derived programs.
-func (w *worker) eval(family string, sites []string, label string, triples []string, text string) {
+func (w *worker) eval(family string, sites []string, label string, triples []string, text string) verdict {
 	w.n["evaluations"]++
 	w.n["programs_"+family]++
 	v := check(text)
@@ -97,7 +100,7 @@ func (w *worker) eval(family string, sites []string, label string, triples []str
 			}
 			e.mu.Unlock()
 		}
-		return
+		return v
 	}
 	w.n["parser_accepts"]++
 	if v.compiledOK {
@@ -109,7 +112,7 @@ func (w *worker) eval(family string, sites []string, label string, triples []str
 		w.distinct[t] = struct{}{}
 	}
 	if v.kind == "" {
-		return
+		return v
 	}
 	w.n["violating_texts"]++
 	e := w.e
@@ -133,13 +136,17 @@ func (w *worker) eval(family string, sites []string, label string, triples []str
 	case v.okAfter:
 		rank = 1
 	}
+	env := ""
+	if e.envUnset {
+		env = "unset"
+	}
 	e.mu.Lock()
 	f := e.viol[key]
 	if f == nil {
-		f = &finding{key: key, kind: v.kind, family: family, text: text, out: v.out, detail: v.detail, rank: rank}
+		f = &finding{key: key, kind: v.kind, family: family, text: text, out: v.out, detail: v.detail, rank: rank, env: env}
 		e.viol[key] = f
 	} else if rank < f.rank || (rank == f.rank && (len(text) < len(f.text) || (len(text) == len(f.text) && text < f.text))) {
-		f.family, f.text, f.out, f.detail, f.rank = family, text, v.out, v.detail, rank
+		f.family, f.text, f.out, f.detail, f.rank, f.env = family, text, v.out, v.detail, rank, env
 	}
 	f.count++
 	if rank == 0 {
@@ -148,6 +155,23 @@ func (w *worker) eval(family string, sites []string, label string, triples []str
 		f.becomesValid++
 	}
 	e.mu.Unlock()
+	return v
+}
+
+// recheck re-runs one recorded example in the environment it was found in.
+func (e *engine) recheck(env, text string) bool {
+	switch env {
+	case "unset":
+		if err := e.cp.useEnv(true); err != nil {
+			return false
+		}
+		defer e.cp.useEnv(false)
+	case "cross":
+		kind, _, _ := e.cp.crossVerdict(text)
+		return kind != ""
+	}
+	v := check(text)
+	return v.kind != "" || v.astOnError
 }
 
 func (e *engine) freeze() {
@@ -169,12 +193,15 @@ func (e *engine) report() {
 	e.r.Set("violation_key_list", keys)
 	for _, k := range keys {
 		f := e.viol[k]
-		text := f.text
+		text, env := f.text, f.env
+		if env != "" {
+			f.detail = "[environment: " + map[string]string{"unset": "none of the referenced variables / files exists", "cross": "formatted while every referenced variable / file is set, compiled while none exists"}[env] + "] " + f.detail
+		}
 		msg := fmt.Sprintf("%s\n%d generated text(s) in this class (%d validated before formatting, %d were invalid and validate after formatting); most severe, then shortest text:\n%s\nformatted:\n%s",
 			f.detail, f.count, f.validBefore, f.becomesValid, indent(f.text), indent(f.out))
 		e.r.Violation(f.key, msg, map[string]any{"text": f.text, "formatted": f.out, "family": f.family, "detail": f.detail, "texts_in_class": f.count,
-			"texts_valid_before": f.validBefore, "texts_invalid_becoming_valid": f.becomesValid},
-			func() bool { v := check(text); return v.kind != "" || v.astOnError })
+			"texts_valid_before": f.validBefore, "texts_invalid_becoming_valid": f.becomesValid, "env": env},
+			func() bool { return e.recheck(env, text) })
 	}
 }
 
@@ -210,13 +237,19 @@ const sentinel = "\x01"
 
 func TestCheck(t *testing.T) {
 	r := runner.Start("C19", "exploration")
-	deadline := r.Deadline(90*time.Second, 12*time.Minute)
+	deadline := r.Deadline(90*time.Second, 15*time.Minute)
 	g := buildGrammar()
-	if err := setupEnv(filepath.Join(runner.Scratch(), "c19env")); err != nil {
+	cp := newComposePlan(g, r.Thorough()) // registers the pieces of every value in the value table: before setupEnv
+	dirA, dirB := composeDirs(runner.Scratch())
+	if err := setupEnv(dirA); err != nil {
 		r.Infra("cannot fix environment: %v", err)
 		r.Finish()
 	}
-	e := &engine{r: r, g: g, deadline: deadline, viol: map[string]*finding{}}
+	if err := cp.setupDirs(dirA, dirB); err != nil {
+		r.Infra("cannot fix environment: %v", err)
+		r.Finish()
+	}
+	e := &engine{r: r, g: g, deadline: deadline, viol: map[string]*finding{}, cp: cp}
 
 	if p := runner.ReplayPath(); p != "" {
 		os.Setenv("VERIF_EVIDENCE", filepath.Join(runner.Scratch(), "replay-evidence.json")) // keep the committed evidence file
@@ -330,6 +363,8 @@ func TestCheck(t *testing.T) {
 			w.eval("layout", []string{"layout"}, "", []string{"(layout," + name[:strings.LastIndexByte(name, 'q')] + ")"}, text)
 		})
 	})
+	// -- value composition: placeholders / literals concatenated at every value position, list context (compose.go) --
+	phase1 = append(phase1, cp.tasks(0)...)
 	// -- lexical layer: every separator symbol at every token boundary (lexlayer.go) -----
 	llTasks, llPairTasks, llProgs, llSyms, llCore, llPair := lexLayerTasks(e, g, r.Thorough())
 	phase2 = append(phase2, llPairTasks...)
@@ -382,10 +417,24 @@ func TestCheck(t *testing.T) {
 
 	t0 := time.Now()
 	e.run(phase1)
-	// the lexical layer may use at most 60 % of the wall budget, so that a loaded
-	// machine cuts it short (non-exhaustive) and not the k = 2 families after it
+	// value composition, second environment: the same texts while none of the referenced
+	// variables / files exists (nothing else runs meanwhile: the environment is process-wide)
+	tc := time.Now()
+	e.freeze()
+	e.envUnset = true
+	if err := cp.useEnv(true); err != nil {
+		r.Infra("cannot switch environment: %v", err)
+	} else {
+		e.run(cp.tasks(1))
+	}
+	e.envUnset = false
+	cp.runCross(e) // restores the first environment
+	e.frozen = nil
+	r.Set("compose_second_env_wall_s", time.Since(tc).Seconds())
+	// the lexical layer may use at most 60 % of the remaining wall budget, so that a
+	// loaded machine cuts it short (non-exhaustive) and not the k = 2 families after it
 	tl := time.Now()
-	if limit := t0.Add(deadline.Sub(t0) * 6 / 10); limit.Before(deadline) {
+	if limit := tl.Add(deadline.Sub(tl) * 6 / 10); limit.Before(deadline) {
 		e.deadline = limit
 	}
 	e.run(llTasks)
@@ -424,6 +473,10 @@ func TestCheck(t *testing.T) {
 	r.Set("spellings", nSpell)
 	r.Set("value_positions", nPos)
 	r.Set("lexical_strings_per_form", len(lex))
+	r.Set("compose_positions", len(cp.pos))
+	r.Set("compose_list_directives", len(cp.lists))
+	r.Set("compose_shapes_per_position", runner.Pick(r, cp.nCore, cp.nShapes))
+	r.Set("compose_shapes_full", cp.nShapes)
 	r.Set("lexlayer_programs", llProgs)
 	r.Set("lexlayer_symbols", llSyms)
 	r.Set("lexlayer_symbols_core", llCore)
@@ -441,10 +494,18 @@ func TestCheck(t *testing.T) {
 		"(white space and line endings LF/CRLF/CR/mixed/none; tab, FF, VT, NUL, NBSP, NEL, U+2028/9, U+3000, ZWSP, BOM, Ctrl-Z, ESC, DEL, invalid UTF-8, backslash glued left/right/both/alone; comments = lead {attached, blank, own line} x body {empty, prose, #, {, }, quotes, % verbs, placeholder, route/block-looking text, each of the characters above and bare CR at the start / end / middle before prose, a route, a comment, a brace} x terminator {LF, CRLF, CR, none}; header forms with BOM and several comments), "+
 		"quick: reduced alphabet at the header, the end and the boundaries a program does not share with the base, full alphabet at every boundary of the base and of the first program starting with each top-level block kind, these also as CRLF and CR files and with two boundaries varied at once (header + one other, reduced alphabet); "+
 		"thorough: full alphabet at every boundary of every program, CRLF/CR files for every program, every pair of boundaries; "+
+		"plus value composition: at every value position (quoted and unquoted) the value written as one placeholder of every kind ({$V}, {$V:default} with V set / unset, {env.V}, {file.F}, {vars.N}), with the reference prefixes raw:/env:/file:/vault:, "+
+		"as two and three pieces (placeholder kinds and literal, every combination; thorough: all 7^2 x 5 and 7^3 x 5 combinations, quick: all pairs without separator, same-kind / literal-affix pairs and triples with separators) joined by '' : - / . where the pieces are cuts of a valid value "+
+		"(middle, thirds, at the separators it contains) so that the composition resolves to the valid value, an unresolved placeholder before/after a resolved one, nested / unbalanced / literal braces, empty placeholder bodies, defaults holding } : \" # { blank tab nothing or a placeholder, "+
+		"placeholders in comments (after the value, line before, file header); list context: every list of 2 and 3 elements over {plain, quoted, one placeholder bare / quoted, two placeholders quoted with and without separator, two placeholders unquoted, literal+placeholder, vars+env} "+
+		"on one line, as repeated directives and mixed, and name/value pairs with composed names and values (one pair: 6 x 6 forms, two pairs); every text under two environments (every referenced variable/file set to its own piece; none of them existing) "+
+		"and the formatted text must not depend on the environment it was formatted in; "+
 		"texts the parser rejects are skipped and counted. A case is distinct/non-trivial when it parsed: key = (block kind, directive, spelling) per chosen slot, or the layout shape.")
 	r.Assume("environment is fixed by the harness: C19_E<n> env vars and c19f_e<n> files (relative to a private cwd) hold the placeholder values, C19_UNSET is unset; nothing else of the process environment is referenced by generated texts")
 	r.Assume("ValidationResult is compared as OK + multiset of Errors + multiset of Warnings (exact text, no positions are embedded by Compile): compileVars ranges over a Go map, so the order of several vars errors is undefined even for a single AST")
 	r.Assume("Compiled is compared with reflect.DeepEqual; generated numeric values never produce NaN (NaN != NaN would be a false difference)")
+	r.Assume("value composition: the environment is switched for the whole process between two fixed states (every C19_E<n> variable and c19f_e<n> file holds its piece / none exists, C19_UNSET never exists); values of other shapes of the environment (a variable holding blanks, braces, quotes or another placeholder; files with a trailing newline) are not enumerated; "+
+		"the cross-environment clause compiles the text formatted under the first environment in the second one only when the two formatted texts differ (equal texts need no second compile)")
 	r.Assume("lexical layer: the token split is done by the harness on its own rendered text (blank/LF separated, quotes and placeholders kept whole) and is only a generator; whether a symbol separates tokens, joins them, starts a comment or is rejected is left to the parser, and every accepted text is judged by the same round-trip oracle. Comments longer than ~40 bytes, more than two varied boundaries per file, and k = 2 programs under the lexical layer are not enumerated")
 	r.Assume("a text that does not parse cannot be formatted: checked as 'config.Parse never returns an error together with an AST' (every caller formats only what Parse returned without error)")
 	r.Assume("bounded: at most two optional slots vary per program (plus their required siblings/referenced blocks); interactions of three or more directives are not enumerated; comments are semantic no-ops and only their acceptance/stability is checked")
@@ -524,6 +585,7 @@ func replay(e *engine, path string) {
 		Key    string `json:"key"`
 		Replay struct {
 			Text string `json:"text"`
+			Env  string `json:"env"`
 		} `json:"replay"`
 	}
 	if err := json.Unmarshal(b, &doc); err != nil {
@@ -531,7 +593,21 @@ func replay(e *engine, path string) {
 		return
 	}
 	e.r.Add("evaluations", 1)
-	v := check(doc.Replay.Text)
+	var v verdict
+	switch doc.Replay.Env {
+	case "unset":
+		if err := e.cp.useEnv(true); err != nil {
+			e.r.Infra("replay: %v", err)
+			return
+		}
+		v = check(doc.Replay.Text)
+		e.cp.useEnv(false)
+	case "cross":
+		v = verdict{parsed: true}
+		v.kind, v.detail, v.out = e.cp.crossVerdict(doc.Replay.Text)
+	default:
+		v = check(doc.Replay.Text)
+	}
 	fmt.Printf("REPLAY key=%s parsed=%v compiled_ok=%v kind=%q\n%s\ntext:\n%s\nformatted:\n%s\n", doc.Key, v.parsed, v.compiledOK, v.kind, v.detail, indent(doc.Replay.Text), indent(v.out))
 	e.r.Sample(map[string]any{"family": "replay", "text": doc.Replay.Text})
 	e.r.Distinct("replay")
@@ -539,7 +615,7 @@ func replay(e *engine, path string) {
 	e.r.Set("rule", "replay of one recorded text")
 	e.r.NotExhaustive("replay of a single case")
 	if v.kind != "" {
-		text := doc.Replay.Text
-		e.r.Violation(doc.Key, v.detail, map[string]any{"text": text, "formatted": v.out, "family": "replay", "detail": v.detail}, func() bool { return check(text).kind != "" })
+		text, env := doc.Replay.Text, doc.Replay.Env
+		e.r.Violation(doc.Key, v.detail, map[string]any{"text": text, "formatted": v.out, "family": "replay", "detail": v.detail, "env": env}, func() bool { return e.recheck(env, text) })
 	}
 }
